@@ -173,9 +173,9 @@ func genCiphers(g *core.Gen) {
 		if n == 0 {
 			line = "C19 fsc " + hx(r.Bytes(32)) + " -"
 		}
-		g.Case("fsc", n > 0, line)
+		kase(g, "fsc", n > 0, line)
 	}
-	for i := 0; i < g.N(40, 400); i++ {
+	for i := 0; i < g.N(16, 400); i++ {
 		n := int(r.Pick(1, 2, 223, 224, 225, 447, 448, 449, 700)) + r.Intn(3)
 		var cs []string
 		for j := 0; j < n; j++ {
@@ -189,7 +189,7 @@ func genCiphers(g *core.Gen) {
 			}
 			cs = append(cs, fmt.Sprintf("%d:%d:%d", ln, r.Intn(256), aad))
 		}
-		g.Case("fsp", true, "C19 fsp "+hx(r.Bytes(32))+" "+strings.Join(cs, ","))
+		kase(g, "fsp", true, "C19 fsp "+hx(r.Bytes(32))+" "+strings.Join(cs, ","))
 	}
 }
 
